@@ -331,12 +331,12 @@ class MySQLConnection(DBAPI):
 
     @classmethod
     def _queryAddLimitOffset(cls, query, start, end):
-        if not start:
-            return "%s LIMIT %i" % (query, end)
         if end is None:
             # MySQL rejects a negative row count; the manual's idiom for
             # "all rows from an offset" is the largest unsigned BIGINT
             return "%s LIMIT %i, 18446744073709551615" % (query, start)
+        if not start:
+            return "%s LIMIT %i" % (query, end)
         return "%s LIMIT %i, %i" % (query, start, end - start)
 
     def createReferenceConstraint(self, soClass, col):
